@@ -63,6 +63,11 @@ class NT3(typing.NamedTuple):
     r: typing.Any = 0
 
 
+UNT2 = collections.namedtuple("UNT2", ["first", "second"])  # un-annotated named tuples
+UNT1 = collections.namedtuple("UNT1", ["only"])
+UNT3 = collections.namedtuple("UNT3", ["p", "q", "r"], defaults=[0])
+
+
 class Plain:
     a: int
     b: str
@@ -155,7 +160,7 @@ def make(rng):
               "CustomMapping": lambda x: CustomMapping(dict(x)), "defaultdict": lambda x: collections.defaultdict(list, x)}[kind]
         return kind, (lambda: mk(d)), list(d.items()), list(d.values())
     if r < 0.40:
-        which = rng.choice(["DC", "DCPrivate", "DCSlots", "NT", "NT", "NT1", "NT3", "Plain", "SlotsOnly", "VarsOnly"])
+        which = rng.choice(["DC", "DCPrivate", "DCSlots", "NT", "NT", "NT1", "NT3", "UNT2", "UNT2", "UNT1", "UNT3", "Plain", "SlotsOnly", "VarsOnly"])
         a, b, c = atom(rng), atom(rng), atom(rng)
         if which == "DC":
             return which, (lambda: DC(1, a, b)), [("a", 1), ("b", a), ("c", b)], [1, a, b]
@@ -165,6 +170,12 @@ def make(rng):
             return which, (lambda: DCSlots(a, b)), [("x", a), ("y", b)], [a, b]
         if which == "NT":  # incl. 2-element first fields
             return which, (lambda: NT(a, b)), [("first", a), ("second", b)], [a, b]
+        if which == "UNT2":
+            return which, (lambda: UNT2(a, b)), [("first", a), ("second", b)], [a, b]
+        if which == "UNT1":
+            return which, (lambda: UNT1(a)), [("only", a)], [a]
+        if which == "UNT3":
+            return which, (lambda: UNT3(a, b, c)), [("p", a), ("q", b), ("r", c)], [a, b, c]
         if which == "NT1":
             return which, (lambda: NT1(a)), [("only", a)], [a]
         if which == "NT3":
